@@ -97,3 +97,8 @@ func isNilValue
   props C13
   ensures untyped-nil-is-null: v == nil ==> result
 @*/
+
+/*@
+extern iface.Condition.Evaluate
+  props C20 C05 C14
+@*/
